@@ -652,6 +652,17 @@ impl Node {
         }
         debug!("Payment is valid for record {pretty_key}");
 
+        // verify the quote(s) issued by this node are for the address being stored
+        let content = address.as_xorname().unwrap_or_default();
+        if payment
+            .quotes_by_peer(&self_peer_id)
+            .iter()
+            .any(|quote| quote.content != content)
+        {
+            warn!("Payment quote is not for record {pretty_key}");
+            return Err(Error::InvalidQuoteContent);
+        }
+
         // verify quote expiration
         if payment.has_expired() {
             warn!("Payment quote has expired for record {pretty_key}");
